@@ -27,6 +27,7 @@ struct Profile {
 	uint32_t w_ping = 6, w_up = 4, w_offer = 4, w_adv = 3, w_nreq = 1, w_redeliver = 0, w_freeze = 0, w_rawmix = 0, w_recycle = 0;
 	int max_sessions = 1;
 	bool wild_frag = false;     // C15: fragment sizes from the hostile list, ack games
+	bool big_frag = false;      // C16: one session in four negotiates a fragment size of 1200..4094 (boundary values 2047/2048, 4093/4094) and gets packets of up to 4600 bytes, so that answers of up to 4096 bytes pass through the answer cache
 	bool ack_games = false;
 	bool wrap_games = false;    // C01: upstream packets crafted against mis-assembly, sent as a conforming client would after seven of its packets were lost entirely (same 3-bit sequence number again)
 	bool qr_games = false;      // now and then a ping is sent with the QR bit set (a response, not a query): it must not be answered
@@ -612,6 +613,7 @@ struct Engine {
 	void do_offer(Peer &p)
 	{
 		size_t maxb = P.max_body;
+		if (P.big_frag && p.F > 1200) maxb = 4600;
 		Bytes pkt = scn::gen_packet(t, p.tun_ip, R.s->server_tun_ip(), (uint16_t)(2000 + p.offered.size() + t.below(30000)), maxb);
 		sim::W.offer_tun(R.s->srv, pkt);
 		note(fmt("tun packet for peer%d %zuB (z=%zu)", peer_index(p), pkt.size(), refproto::zcompress(pkt).size()));
@@ -811,6 +813,7 @@ inline void run_sessions(Tape &t, const Profile &P, Run &R)
 		static const int UPB[] = {0, 5, 6, 26, 7};
 		int upb = UPB[t.pick({3, 1, 2, 2, 2})];
 		int F0 = t.chance(1, 2) ? 0 : (P.wild_frag ? t.range(2, 1300) : t.range(20, 1200));
+		if (P.big_frag && t.chance(1, 4)) { static const int BF[] = {2047, 2048, 2049, 4093, 4094, 0, 0}; F0 = BF[t.below(7)]; if (!F0) F0 = t.range(1200, 4094); }
 		if (F0 > (int)E.format_cap()) F0 = t.range(2, (int)E.format_cap());
 		bool ok = p->sc.handshake(p->lazy, F0, de, upb);
 		if (!ok) { R.up = false; R.render = c.describe() + " | scripted handshake failed"; return; }
